@@ -1,1 +1,104 @@
-fn main(){}
+//! `mcs <C01|C09|C20> [--tier quick|thorough] [--out evidence.json] [--replay file]`
+//! Value-tree explorer (rtcm-rs built with the serde feature).
+
+#[path = "../../mc-main/src/common.rs"]
+#[allow(dead_code)]
+mod common;
+#[path = "../../mc-main/src/decode.rs"]
+#[allow(dead_code)]
+mod decode;
+mod value;
+mod vtree;
+
+use mc_core::*;
+use rtcm_rs::prelude::*;
+use serde_json::json;
+use value::Flags;
+
+fn main() {
+    let ctx = Ctx::from_args();
+    install_panic_hook();
+    watchdog_start(20);
+    if let Some(p) = &ctx.replay {
+        let Ok(s) = std::fs::read_to_string(p) else {
+            println!("MACHINERY-FAILURE: cannot read {}", p.display());
+            std::process::exit(2);
+        };
+        let v: serde_json::Value = serde_json::from_str(&s).unwrap_or(json!(null));
+        let a = value::replay(&v["replay"]);
+        let b = value::replay(&v["replay"]);
+        match (a, b) {
+            (Some(a), Some(b)) if a == b => {
+                println!("property: {}\nkey: {}\nwhat: {}\nobserved (identical in two runs):\n{}", v["property"], v["key"], v["what"], a);
+                std::process::exit(1);
+            }
+            (Some(_), Some(_)) => {
+                println!("MACHINERY-FAILURE: replay is not deterministic");
+                std::process::exit(2);
+            }
+            _ => {
+                println!("MACHINERY-FAILURE: replay file not understood by mcs (kind {:?})", v["replay"]["kind"]);
+                std::process::exit(2);
+            }
+        }
+    }
+    let thorough = ctx.tier.thorough();
+    let bound = if thorough { 2 } else { 1 };
+    let (rep, meta) = match ctx.prop.as_str() {
+        "C01" => {
+            let mut rep = value::run_value_engine(&ctx, Flags { c01: true, c09: false, c20: false });
+            rep.distinct_nontrivial = rep.traces;
+            rep.sample(json!({"part":"B","number":1020,"base":"ones","level":1,"deviation":{"path":"Msg1020.xn_second_deriv_km_s2","value":"2^-26"},"oracle":"decode(build(m)) same variant; build(decode(build(m))) == build(m)"}));
+            (rep, Meta {
+                rule: "part B: bases = messages decoded from the zero / ones / testdata (/ counter) payloads of every supported type plus one message per distinct parse-trace shape reachable by one control-field deviation; each base is serialised to a value tree; 1 deviation = one leaf replaced by each member of its type-directed alphabet (integers: type bounds and structural constants; reals: zeros, subnormals, powers of two around the current value, +-eps neighbours, huge, +-inf, NaN; options None<->Some; strings of boundary lengths; signal identifiers as units; satellite ids incl. sibling ids) or one list restructured (empty, one, capacity-1, capacity, capacity+1, reversed, rotated, swapped, duplicated); thorough adds pairs over header leaves and first/last list elements. Every value the encoder accepts must decode to the same variant and re-encode byte-identically (equal twice-decoded messages where the statement allows). traces_validated = values accepted by the encoder and compared".into(),
+                exhaustive: false,
+                bounds: json!({"deviation_bound": bound, "level2_cap_per_base": if thorough {60000} else {0}}),
+                assumptions: vec!["values are built through Message: Deserialize; every public field is reachable that way".into()],
+            })
+        }
+        "C09" => {
+            let mut rep = value::run_value_engine(&ctx, Flags { c01: false, c09: true, c20: false });
+            // messages without a wire form: refused for all 4096 numbers
+            let mut wl: Vec<Message> = vec![Message::Empty, Message::Corrupt];
+            for n in 0..4096u16 {
+                wl.push(Message::MsgNotSupported(rtcm_rs::msg::message::MsgNotSupportedT { message_number: n }));
+            }
+            for m in &wl {
+                rep.transitions += 1;
+                rep.traces += 1;
+                let r = catch(|| {
+                    let mut b = MessageBuilder::new();
+                    b.build_message(m).map(|x| x.len()).map_err(|e| format!("{:?}", e))
+                });
+                match r {
+                    Ok(Err(_)) => rep.outcome("wire-less-variant-refused"),
+                    other => rep.violation("C09", format!("wireless:{}", common::outcome_class(m)), format!("{:?}: build returned {:?} instead of an error", m, other), 0, json!({"kind":"wireless","message":format!("{:?}", m)})),
+                }
+            }
+            rep.distinct_nontrivial = rep.states;
+            rep.sample(json!({"number":1020,"base":"zero","level":1,"deviation":{"path":"Msg1020.glo_satellite_freq_chan_number","value":127},"oracle":"no panic; Ok(frame) well formed (length, preamble, reserved bits, length field, number, independent CRC-24Q)"}));
+            (rep, Meta {
+                rule: "every Message value the E-value exploration constructs (no acceptance filter; bases, alphabets and bounds as for C01 part B), in the build profile named in 'profile': build_message returns without panicking; every returned frame is 8..=1029 bytes, starts with D3 and six zero bits, has a length field equal to its payload size, the message's own number in the first 12 payload bits and a CRC confirmed by the bit-wise CRC-24Q; Empty, Corrupt and MsgNotSupported(n) for all 4096 n are refused. states = distinct values constructed; transitions = build calls".into(),
+                exhaustive: false,
+                bounds: json!({"deviation_bound": bound, "level2_cap_per_base": if thorough {60000} else {0}}),
+                assumptions: vec!["values are built through Message: Deserialize".into()],
+            })
+        }
+        "C20" => {
+            let mut rep = value::run_value_engine(&ctx, Flags { c01: false, c09: false, c20: true });
+            rep.distinct_nontrivial = rep.traces;
+            rep.sample(json!({"number":1007,"level":1,"deviation":{"path":"Msg1007.antenna_descriptor_str","value":"31 x U+00E9"},"oracle":"from_vtree(to_vtree(m)) == m and serde_json::from_value(to_value(m)) == m"}));
+            (rep, Meta {
+                rule: "every NaN-free Message value of the E-value exploration (bases decoded from frames + 1 (thorough: 2) deviations incl. strings at capacity with non-ASCII Latin-1 / multi-byte characters, lists at capacity, None/Some on every optional) is serialised to the VTree data model and back, and (finite values) to serde_json::Value and back; both must give an equal message. traces_validated = round trips compared".into(),
+                exhaustive: false,
+                bounds: json!({"deviation_bound": bound}),
+                assumptions: vec!["serde_json::Value cannot represent non-finite floats; those values are checked through the VTree model only".into()],
+            })
+        }
+        other => {
+            println!("MACHINERY-FAILURE: unknown property {:?} for mcs", other);
+            std::process::exit(2);
+        }
+    };
+    std::process::exit(finish(&ctx, &rep, meta));
+}
